@@ -247,6 +247,9 @@ PtrStart ==
           IF absent THEN
                IF n.req THEN WithTop(AddIssue(Cur, f.ctx, RIss(n, f.ip, "not_nil", DType(n))), [f EXCEPT !.pc = "done"])
                ELSE WithTop(Cur, [f EXCEPT !.pc = "done"])
+          \* (pointers.go asks a front-end document to decode before anything else: an undecodable one ends the node here)
+          ELSE IF Mode = "parse" /\ f.in.t = "badjson"
+               THEN WithTop(AddIssue(Cur, f.ctx, Iss(f.ip, "invalid_json", DType(n))), [f EXCEPT !.pc = "done"])
           ELSE Push(WithTop([Cur EXCEPT !.ctxs = Append(ctxs, NewCtx), !.dest = d1], [f EXCEPT !.pc = "done"]), child))
 
 \* ---------------------------------------------------------------------------
